@@ -257,3 +257,25 @@ def large_afs(seed, count, nlo, nhi):
                 att.add((rng.randint(1, n), rng.randint(1, n)))
         res.append(af(n, att, "large%d" % mode))
     return res
+
+
+def mid_afs(seed, count, nlo=10, nhi=13):
+    """single-component-ish frameworks of 10-13 arguments: still judged by TLC with the full families (size-dependent code paths:
+    variable layouts, table sizes, thresholds), sparse enough for the families to stay small"""
+    rng = random.Random(seed)
+    res = []
+    for i in range(count):
+        n = rng.randint(nlo, nhi)
+        att = set()
+        # a spanning chain with random direction keeps it (weakly) connected
+        order = list(range(1, n + 1))
+        rng.shuffle(order)
+        for a, b in zip(order, order[1:]):
+            att.add((a, b) if rng.random() < 0.5 else (b, a))
+        for _ in range(rng.randint(n // 2, n + 3)):
+            att.add((rng.randint(1, n), rng.randint(1, n)))
+        if rng.random() < 0.3:
+            x = rng.randint(1, n)
+            att.add((x, x))
+        res.append(af(n, att, "mid%d" % n))
+    return res
